@@ -194,7 +194,7 @@ R.contract(
               "implies(self.aead is not None, self.hp is not None and self.cipher_suite is not None and self.secret is not None and self.version is not None)",
               "implies(self.aead is not None, self.cipher_suite == CipherSuite.AES_128_GCM_SHA256 or self.cipher_suite == CipherSuite.AES_256_GCM_SHA384 or self.cipher_suite == CipherSuite.CHACHA20_POLY1305_SHA256)"],
     returns="tuple[bytes,bytes,int,bool]",
-    check_frame=True,  # writes NO field of any pre-existing object: a packet that fails to open changes nothing
+    check_frame=True, check_frame_syntactic=True,  # writes NO field of any pre-existing object: a packet that fails to open changes nothing
     raises={"KeyUnavailableError": "self.aead is None", "CryptoError": None},
     let={"alg": "hash_of_suite(some(self.cipher_suite))"},
     ensures=[
